@@ -271,6 +271,8 @@ func refsOfPath(path []string) []ref {
 
 // exprRefs extracts the references of one expression body / identifier, provided it is plain enough for this
 // model to be sure about it and the real parser accepts it (a syntactically invalid expression is never evaluated).
+var lambdaParams = regexp.MustCompile(`\(([A-Za-z0-9_, ]*)\)\s*=>`)
+
 func exprRefs(body string) (refs []ref, sure bool) {
 	for i := 0; i < len(body); i++ {
 		if body[i] >= 0x80 || body[i] == '\\' {
@@ -278,7 +280,16 @@ func exprRefs(body string) (refs []ref, sure bool) {
 		}
 	}
 	if strings.Contains(body, "=>") {
-		return nil, false // lambda parameters may shadow context names
+		// a lambda parameter that has the name of a top-level shadows it inside the body: only then is a dotted path in the
+		// expression not known to be a context reference
+		for _, m := range lambdaParams.FindAllStringSubmatch(body, -1) {
+			for _, p := range strings.Split(m[1], ",") {
+				switch strings.ToLower(strings.TrimSpace(p)) {
+				case "globals", "fields", "contact", "parent", "child", "results", "run", "urns", "input", "trigger", "webhook", "node", "ticket", "resume", "legacy_extra":
+					return nil, false
+				}
+			}
+		}
 	}
 	if strings.Count(body, `"`)%2 != 0 {
 		return nil, false
